@@ -75,6 +75,23 @@ def check_row(job):
     if not np.all(np.isfinite(f)):
         viol.append({"site": "forces:non-finite:" + tag, "detail": {"row": row}})
         return {"id": job["id"], "viol": viol, "n": n}
+    # ---- blocking: the forces must not depend on the memory budget (number of grid blocks the XC loops are cut into);
+    # with a tiny budget every block loop of the gradient code runs with the minimum block size (many blocks)
+    mm = ks.max_memory
+    try:
+        ks.max_memory = 1
+        g2 = ks.nuc_grad_method()
+        g2.grid_response = row["grid_response"]
+        g2.max_memory = 1
+        f_blk = g2.kernel()
+        n += 1
+        if not (np.all(np.isfinite(f_blk)) and np.abs(f_blk - f).max() <= 1e-9 * (1 + np.abs(f).max())):
+            viol.append({"site": "forces:depend-on-blocking:%s:%s:%s" % (row["fam"], "grid-response" if row["grid_response"] else "fixed-grid", row["spin"]),
+                         "detail": {"row": row, "max_abs_diff": float(np.abs(f_blk - f).max()), "one_block": f.tolist(), "many_blocks": f_blk.tolist()}})
+    except Exception as ex:  # noqa: BLE001
+        viol.append({"site": "forces:blocking:%s:%s" % (type(ex).__name__, tag), "detail": {"row": row, "msg": str(ex)[:200]}})
+    finally:
+        ks.max_memory = mm
     tol = 5e-6 if row["grid_response"] else 2e-4
     ssum = np.abs(f.sum(0)).max()
     n += 1
